@@ -24,6 +24,11 @@ type c17Stale struct {
 	Helper      *ssa.Function
 	HelperObj   int    // index (in Helper.Params / Site args) of the object whose generation is compared
 	HelperWhy   string // non-empty: the helper's result is not exactly the stale verdict
+	// Lookup: the NestedInt64 call sits in this helper, which hands back (value, found) with
+	// found == (err == nil && ok); Og/Ok are the results of the helper call in the analysed function,
+	// Err is nil (folded into Ok).
+	Lookup    *ssa.Function
+	LookupWhy string // non-empty: the helper is not recognised as such a lookup
 }
 
 // c17StaleCalls: the observedGeneration tests of f: unstructured.NestedInt64(x, ..., "observedGeneration")
@@ -49,6 +54,11 @@ func (p *Program) c17StaleCalls(f *ssa.Function) []c17Stale {
 			continue
 		}
 		if res := h.Signature.Results(); res.Len() != 1 || res.At(0).Type().String() != "bool" {
+			// a helper that only performs the lookup and hands back (value, found): the comparison with
+			// the generation stays with f
+			if lk, ok := p.c17LookupHelperCall(call, h); ok {
+				out = append(out, lk)
+			}
 			continue
 		}
 		for _, hc := range callsIn(h) {
@@ -76,6 +86,101 @@ func (p *Program) c17StaleCalls(f *ssa.Function) []c17Stale {
 		}
 	}
 	return out
+}
+
+// c17LookupHelperCall: call is a call of helper h that performs unstructured.NestedInt64 on its
+// parameters and hands back the value together with one flag that folds `err == nil && found`
+// (results: one int64, one bool, in either order). The flag must be true only under err==nil ∧ found —
+// then with the looked-up value as the int64 result — and false only under err!=nil ∨ !found: a
+// declared observedGeneration is never reported as absent. The test then reads, in f,
+// `flag && value != generation`; Err is folded into Ok.
+func (p *Program) c17LookupHelperCall(call *ssa.Call, h *ssa.Function) (c17Stale, bool) {
+	res := h.Signature.Results()
+	if res.Len() != 2 {
+		return c17Stale{}, false
+	}
+	vi, fi := -1, -1
+	for i := 0; i < 2; i++ {
+		switch res.At(i).Type().String() {
+		case "int64":
+			vi = i
+		case "bool":
+			fi = i
+		}
+	}
+	if vi < 0 || fi < 0 {
+		return c17Stale{}, false
+	}
+	for _, hc := range callsIn(h) {
+		n, ok := hc.Instr.(*ssa.Call)
+		if !ok || !isCallTo(hc.Common, pkgUnstr+".NestedInt64") || len(n.Call.Args) != 2 {
+			continue
+		}
+		mi, pi := paramIndex(h, n.Call.Args[0]), paramIndex(h, n.Call.Args[1])
+		if mi < 0 || mi >= len(call.Call.Args) {
+			continue
+		}
+		var path []string
+		if pi >= 0 && pi < len(call.Call.Args) {
+			path, ok = c17VariadicConsts(call.Call.Args[pi])
+		} else {
+			path, ok = c17VariadicConsts(n.Call.Args[1])
+		}
+		if !ok || len(path) == 0 || path[len(path)-1] != "observedGeneration" {
+			continue
+		}
+		og, okv, errv := c16Extract(n, 0), c16Extract(n, 1), c16Extract(n, 2)
+		if og == nil || okv == nil || errv == nil {
+			continue
+		}
+		st := c17Stale{N: n, Og: c16Extract(call, vi), Ok: c16Extract(call, fi), Site: call, Map: call.Call.Args[mi], Path: path,
+			Lookup: h}
+		nTrue := 0
+		for _, rc := range p.c17ReturnCases(h) {
+			if len(rc.Results) != 2 {
+				st.LookupWhy = "unexpected results"
+				continue
+			}
+			for _, lf := range p.c17Expand(rc.Results[fi], rc.Facts, 0) {
+				var pols []bool
+				if v, isConst := c17ConstBoolResult(lf.V); isConst {
+					pols = []bool{v}
+				} else {
+					pols = []bool{true, false}
+				}
+				for _, pol := range pols {
+					fs := lf.Facts
+					if len(pols) == 2 {
+						fs = append(append([]Fact{}, lf.Facts...), p.mkFact(lf.V, pol))
+					}
+					declared := p.nilnessFromFacts(fs, errv) == yesTri && p.boolFromFacts(fs, okv) == yesTri
+					absent := p.nilnessFromFacts(fs, errv) == noTri || p.boolFromFacts(fs, okv) == noTri
+					switch {
+					case pol && !declared:
+						st.LookupWhy = fmt.Sprintf("%s reports a value at %s without err==nil ∧ found", h.Name(), p.IPos(rc.Ret))
+					case pol:
+						nTrue++
+						for _, vl := range p.c17Expand(rc.Results[vi], fs, 0) {
+							if !p.sameValue(vl.V, og) {
+								st.LookupWhy = fmt.Sprintf("%s hands back %s at %s, not the looked-up value", h.Name(), c17Short(p.describe(vl.V)), p.IPos(rc.Ret))
+							}
+						}
+					case !absent:
+						st.LookupWhy = fmt.Sprintf("%s may report a declared observedGeneration as absent at %s", h.Name(), p.IPos(rc.Ret))
+					}
+				}
+			}
+		}
+		if nTrue == 0 && st.LookupWhy == "" {
+			st.LookupWhy = h.Name() + " never reports a value"
+		}
+		if st.Og == nil || st.Ok == nil {
+			// the results are not consumed by f: no test there
+			continue
+		}
+		return st, true
+	}
+	return c17Stale{}, false
 }
 
 type c17BoolCase struct {
@@ -145,10 +250,10 @@ func (p *Program) c17IsStale(fs []Fact, st c17Stale, obj ssa.Value) bool {
 		}
 		return p.boolFromFacts(fs, st.Site) == yesTri
 	}
-	if st.Og == nil || st.Ok == nil || st.Err == nil {
+	if st.Og == nil || st.Ok == nil || (st.Err == nil && st.Lookup == nil) || st.LookupWhy != "" {
 		return false
 	}
-	if p.nilnessFromFacts(fs, st.Err) != yesTri || p.boolFromFacts(fs, st.Ok) != yesTri {
+	if (st.Err != nil && p.nilnessFromFacts(fs, st.Err) != yesTri) || p.boolFromFacts(fs, st.Ok) != yesTri {
 		return false
 	}
 	for _, f := range fs {
@@ -170,10 +275,10 @@ func (p *Program) c17NotStale(fs []Fact, st c17Stale, obj ssa.Value) bool {
 	if st.Helper != nil {
 		return p.boolFromFacts(fs, st.Site) == noTri
 	}
-	if st.Og == nil || st.Ok == nil || st.Err == nil {
+	if st.Og == nil || st.Ok == nil || (st.Err == nil && st.Lookup == nil) || st.LookupWhy != "" {
 		return false
 	}
-	if p.nilnessFromFacts(fs, st.Err) == noTri || p.boolFromFacts(fs, st.Ok) == noTri {
+	if (st.Err != nil && p.nilnessFromFacts(fs, st.Err) == noTri) || p.boolFromFacts(fs, st.Ok) == noTri {
 		return true
 	}
 	for _, f := range fs {
@@ -195,6 +300,9 @@ func (p *Program) c17NotStale(fs []Fact, st c17Stale, obj ssa.Value) bool {
 func (p *Program) c17StaleOnlyFails(f *ssa.Function, st c17Stale, obj ssa.Value) (tri, string) {
 	if st.Helper != nil && st.HelperWhy != "" {
 		return unknownTri, "the observedGeneration test was extracted into " + st.Helper.Name() + ", whose result is not recognised as the stale verdict: " + st.HelperWhy
+	}
+	if st.Lookup != nil && st.LookupWhy != "" {
+		return unknownTri, "the observedGeneration lookup was extracted into " + st.Lookup.Name() + ", which is not recognised as handing back exactly (value, err==nil ∧ found): " + st.LookupWhy
 	}
 	rcs := p.c17ReturnCases(f)
 	n := 0
